@@ -16,7 +16,7 @@ for _i in range(1, 21):
     NOT_APPLICABLE["C%02d" % _i] = "check under construction in this round: not claimed until its harness is committed"
 
 # "fix:" commits made to /repo (genuine defects found by these checks)
-FIX_COMMITS = ["7efd154 (C15 ConnRef ctor with transactions off)", "b7b870c (C02 static Solver split with scales)", "055d977 (C17 floyd_warshall)", "48d1978 (C15 ActionInfo::firstMove)", "c551cd9 (C06 calcRouteDist)",
+FIX_COMMITS = ["24c34d5 (C19 peel on edgeless graph)", "7efd154 (C15 ConnRef ctor with transactions off)", "b7b870c (C02 static Solver split with scales)", "055d977 (C17 floyd_warshall)", "48d1978 (C15 ActionInfo::firstMove)", "c551cd9 (C06 calcRouteDist)",
                "30473cc (C20 CmpNodePos)", "9f592b9 (C02 IncSolver::solve)"]
 HOOK_COMMITS = []
 
@@ -235,6 +235,25 @@ CHECKS["C14"] = dict(
          "and the tree pipeline run); distinct by FNV-1a of the case text",
     min_nontrivial=dict(quick=40, thorough=3000),
     assumptions=["no multi-edges, no self-loops, connected (the property's quantifier)"],
+)
+
+CHECKS["C19"] = dict(
+    stages=[stage("C19", quick=dict(cases=4000, size=100, shards=12), thorough=dict(cases=300000, size=100, shards=16), case_timeout=600)],
+    technique="rapidcheck property-based testing with partition / union-find / reachability validity predicates over the decompositions",
+    level_text="Generated simple graphs (random, trees, cycles with chords, cores with hanging trees, caterpillars that peel away completely; "
+               "up to 60 nodes, 80 thorough).  peel(): every node is in the core or in exactly one tree as a non-root, tree roots are core "
+               "nodes, every input edge is in exactly one part, every tree is connected and acyclic (union-find), a core of more than "
+               "one node has minimum degree 2, a tree input leaves a one-node core; symmetricLayout of each peeled tree (4 growth "
+               "directions, convex ordering on/off) puts no two tree nodes on top of each other.  getConnComps(): a partition of "
+               "nodes and edges into connected parts matching an independent union-find.  OrthoPlanariser on leafless graphs routed "
+               "by LeaflessOrthoRouter: no two result edges cross or overlap, every original node survives, every original edge is "
+               "realised by a chain of new nodes.",
+    level_note="Planarisation inputs are produced by the library's own LeaflessOrthoRouter (the planariser's documented producer); "
+               "each costs ~1 s, so it gets 5% of the cases.",
+    rule="rapidcheck-generated graphs; non-trivial = peel: at least one tree of >=3 nodes and a core of >=2 nodes; components: >=2 "
+         "components; planarise: the routed input has >=1 crossing; distinct by FNV-1a of the case text",
+    min_nontrivial=dict(quick=800, thorough=40000),
+    assumptions=["simple graphs (no self-loops, no multi-edges); connected for peel()"],
 )
 
 # every check treats a library assertion at a site that is not a listed C15 finding as a violation of its own property
